@@ -61,8 +61,13 @@ def nc_style(rng, inp):
         for k in order:
             rng.shuffle(order[k])
     vars_ = {"location": rng.random() < 0.8, "lat": True, "lon": True, "altitude": rng.random() < 0.7}
-    if rng.random() < 0.15:
+    r = rng.random()
+    if r < 0.15:
         vars_["lat"] = vars_["lon"] = False
+    elif r < 0.3:
+        # only one of the two coordinates is stored (the other then defaults to 0 in both formats)
+        vars_[rng.choice(["lat", "lon"])] = False
+        vars_["location"] = True
     fits = max(inp["times"]) < 2 ** 31 - 1
     return {"enc": rng.sample(gen.NC_MISSING_ENC, rng.randint(1, 4)), "order": order, "vars": vars_,
             "time_type": "i4" if (fits and rng.random() < 0.5) else "f8", "shuffled": shuffled}
@@ -105,7 +110,7 @@ def compare_readers(ctx, a, b, inp, st_nc, case):
             if sv["location"]:
                 if float(v.id) == float(loc[0]):
                     bmap[loc[0]] = j
-            elif sv["lat"]:
+            elif sv["lat"] and sv["lon"]:
                 if abs(v.lat - loc[1]) < 1e-6 and abs(v.lon - loc[2]) < 1e-6:
                     bmap[loc[0]] = j
             else:
@@ -117,8 +122,12 @@ def compare_readers(ctx, a, b, inp, st_nc, case):
                 loc, [(v.id, v.lat, v.lon) for v in a.locations], [(v.id, v.lat, v.lon) for v in b.locations]), case)
             return False
         va, vb = a.locations[amap[loc[0]]], b.locations[bmap[loc[0]]]
-        if sv["lat"] and (abs(va.lat - vb.lat) > 1e-6 or abs(va.lon - vb.lon) > 1e-6 or abs(vb.lat - loc[1]) > 1e-6 or abs(vb.lon - loc[2]) > 1e-6):
-            ctx.violation("location-metadata|latlon", "location %s: text (%s,%s) NetCDF (%s,%s)" % (loc, va.lat, va.lon, vb.lat, vb.lon), case)
+        want_lat = loc[1] if sv["lat"] else 0.0
+        want_lon = loc[2] if sv["lon"] else 0.0
+        ctx.count("location_metadata_checks")
+        if abs(va.lat - vb.lat) > 1e-6 or abs(va.lon - vb.lon) > 1e-6 or abs(vb.lat - want_lat) > 1e-6 or abs(vb.lon - want_lon) > 1e-6:
+            ctx.violation("location-metadata|latlon", "location %s (stored: lat %s, lon %s): text (%s,%s) NetCDF (%s,%s)"
+                          % (loc, sv["lat"], sv["lon"], va.lat, va.lon, vb.lat, vb.lon), case)
         if sv["altitude"] and (abs(va.elev - vb.elev) > 1e-4 or abs(vb.elev - loc[3]) > 1e-4):
             ctx.violation("location-metadata|elev", "location %s: text elev %s NetCDF elev %s" % (loc, va.elev, vb.elev), case)
     if sorted(float(x) for x in a.thresholds) != sorted(float(x) for x in b.thresholds) or \
@@ -202,7 +211,8 @@ def run_pair(desc, ctx):
         tinp = dict(inp, fmt="text", name="d.txt", style={})
         tstyle = gen.default_text_style(tinp, rng)
         tstyle["has_elev"] = st["vars"]["altitude"]
-        tstyle["latlon"] = st["vars"]["lat"]
+        tstyle["latlon"] = True if (st["vars"]["lat"] and st["vars"]["lon"]) else "lat" if st["vars"]["lat"] else \
+            "lon" if st["vars"]["lon"] else False
         tinp["style"] = tstyle
         ninp = dict(inp, fmt="nc", name="d.nc", style=dict(st))
         tpath = gen.write_text(tinp, os.path.join(d, "d.txt"), rng)
